@@ -1,5 +1,5 @@
 # replay of a bounded stand-in violation (C11): re-run native/c11_compilers.py
 import sys
-print("gaussian_merge n=5 gates=[('BSgate', (4, 2)), ('MZgate', (2, 0)), ('CKgate', (1, 3)), ('Dgate', (1,)), ('Sgate', (1,)), ('Sgate', (3,)), ('Vgate', (1,)), ('Rgate', (3,)), ('BSgate', (3, 0)), ('Kgate', (0,)), ('Rgate', (1,)), ('Dgate', (3,)), ('CKgate', (4, 3)), ('S2gate', (1, 2)), ('Dgate', (1,)), ('MZgate', (4, 2))]: with the opaque gates interpreted as fixed unitaries the compiled program [('CKgate', [1, 3]), ('Kgate', [0]), ('GaussianTransform', [1]), ('Dgate', [1]), ('Vgate', [1]), ('Rgate', [1]), ('GaussianTransform', [0, 1, 2, 3, 4]), ('Dgate', [3]), ('Dgate', [1]), ('CKgate', [4, 3]), ('MZgate', [4, 2]), ('MeasureFock', [0, 1, 2, 3, 4])] computes something else (max difference 0.727)")
+print("passive n=4 modes=[1, 2] gates=[('BSgate', (2, 1)), ('Rgate', (2,)), ('Rgate', (2,)), ('Rgate', (1,)), ('Rgate', (1,)), ('Rgate', (1,)), ('BSgate', (2, 1)), ('MZgate', (2, 1)), ('Interferometer', (2, 1)), ('Rgate', (2,)), ('Rgate', (2,)), ('PassiveChannel', (1, 2)), ('LossChannel', (1,))]: compiled program leaves a different Gaussian state (max difference 0.16)")
 print('REPLAY-VIOLATION')
 sys.exit(1)
